@@ -41,7 +41,7 @@ COMPONENTS = {
              "generated InitInit / ConnectionPlayer / AccountReply server packets (real generator, documented layout) for a sample of outcomes"],
     "stub_or_harness": ["SimRandom (scripted random source)", "outcome-space enumerator"],
 }
-PROBES = ["switch_field_given_as_plain_int", "components_through_generated_packet", "init_seq2_at_252", "init_seq2_at_0", "init_single_choice_range", "ping_seq2_at_251", "ping_value_max",
+PROBES = ["refused_write_elsewhere_before_trip", "switch_field_given_as_plain_int", "components_through_generated_packet", "init_seq2_at_252", "init_seq2_at_0", "init_single_choice_range", "ping_seq2_at_251", "ping_value_max",
           "account_value_239", "init_value_0", "init_value_max"]
 FAULT_KINDS = ["scripted_draw"]
 EXHAUSTIVE = False  # set in coverage_extra when the sweep completed
@@ -194,6 +194,11 @@ class _Ctx:
                 start, exc = None, e
         log = list(sim.log)
         self.res.count("fault.scripted_draw", len(log))
+        from ..seams import DrawLimit
+        if isinstance(exc, DrawLimit):
+            self.fail("generate-does-not-return", gen, f"{gen}.generate() kept drawing from the random source ({len(log)} draws, "
+                                                       f"first {log[:4]}): whatever the source returns, generation must return a start")
+            return None
         if exc is not None:
             self.fail("generate-raised", gen, f"{gen}.generate() raised {type(exc).__name__}: {exc} with draws {log}")
             return None
@@ -205,6 +210,14 @@ class _Ctx:
         if not isinstance(value, int) or not (0 <= value <= hi):
             self.fail("value-range", gen, f"{gen} start value {value!r} outside documented 0..{hi}; draws {log}")
             return None
+        if value % 5 == 0:
+            # elsewhere in the same process a writer has just (rightly) refused a number that does not fit
+            for bad, meth in ((253 + value, "add_char"), (64009 + value, "add_short")):
+                try:
+                    getattr(self.W(), meth)(bad)
+                except ValueError:
+                    pass
+            self.res.count("probe.refused_write_elsewhere_before_trip")
         w = self.W()
         try:
             if gen == "init":
